@@ -382,6 +382,30 @@ def gen_experiment(rng, faults=True, max_samples=5, max_beads=2, small=False, pl
     return exp
 
 
+def add_replicate_pair(exp, index):
+    """Appends two healthy float rows on the first instrument: one acquisition with negative scatter events and its
+    replicate with every signal a fraction of a percent off. Draws nothing from the run's PRNG (the rest of the case
+    is the same with and without the pair); the file seeds derive from the run index."""
+    inst = exp['instruments'][0]
+    files = exp['files']
+    have = set(x['ID'] for x in exp['samples'])
+    ids = [i for i in ('RP1', 'RP2') if i not in have]
+    if len(ids) < 2:
+        return exp
+    base = {'kind': 'cells', 'inst': inst, 'n': 760, 'seed': 7919 * (index + 1) % (2 ** 31 - 1), 'datatype': 'F',
+            'volt': 500, 'amp': 'log', 'clip0': False, 'sgain': None, 'res256': False, 'overrange': False,
+            'version': 'FCS3.0', 'byteord': '1,2,3,4', 'layout_variant': None, 'timestep': '0.01', 'negscatter': True}
+    nudge = (1.001, 0.999, 1.002)[(index // 13) % 3]
+    units = {c: ('RFI', 'a.u.', 'Channel')[(index // 13 + j) % 3] for j, c in enumerate(inst['fl'])}
+    gf = (0.5, 0.65, 0.9)[(index // 39) % 3]
+    for i, (sid, d) in enumerate(zip(ids, (base, dict(base, nudge=nudge)))):
+        name = 'rp%d_%d.fcs' % (index, i)
+        files[name] = d
+        exp['samples'].append({'ID': sid, 'Instrument ID': inst['ID'], 'Beads ID': None, 'Gate Fraction': gf,
+                               'units': dict(units), 'fault': None, 'Note': 'replicate pair', 'File Path': name})
+    return exp
+
+
 def tables(exp):
     """pandas tables as read_table would return them (index = ID)."""
     import pandas as pd
